@@ -58,6 +58,12 @@ impl Resp {
     pub fn cut_short(body: Vec<u8>, missing: usize) -> Self {
         Resp { status: 998, headers: vec![("X-Missing".into(), missing.to_string())], body }
     }
+    /// A 200 reply that delivers its head and the first `body` bytes, then holds the connection
+    /// open without sending the `missing` rest (for up to three seconds, or until the client goes
+    /// away): a transfer that stalls mid-body, as seen by a caller who gives up on it (status 997).
+    pub fn stalled(body: Vec<u8>, missing: usize) -> Self {
+        Resp { status: 997, headers: vec![("X-Missing".into(), missing.to_string())], body }
+    }
     pub fn xml(body: String) -> Self {
         Resp {
             status: 200,
@@ -188,10 +194,11 @@ impl Sim {
                         Resp::status(404)
                     }
                 };
-                if resp.status == 998 {
+                if resp.status == 998 || resp.status == 997 {
+                    let stall = resp.status == 997;
                     let missing = resp.headers.iter().find(|(k, _)| k == "X-Missing").and_then(|(_, v)| v.parse::<usize>().ok()).unwrap_or(1);
                     if let Ok(mut m) = cuts().lock() {
-                        m.insert(n, (resp.body, missing));
+                        m.insert(n, (resp.body, missing, stall));
                     }
                     let loc = format!("http://127.0.0.1:{}/cut/{}", fault_port(), n);
                     let mut r = tiny_http::Response::from_data(Vec::new()).with_status_code(307);
@@ -238,8 +245,8 @@ impl Sim {
     }
 }
 
-fn cuts() -> &'static Mutex<HashMap<u64, (Vec<u8>, usize)>> {
-    static CUTS: OnceLock<Mutex<HashMap<u64, (Vec<u8>, usize)>>> = OnceLock::new();
+fn cuts() -> &'static Mutex<HashMap<u64, (Vec<u8>, usize, bool)>> {
+    static CUTS: OnceLock<Mutex<HashMap<u64, (Vec<u8>, usize, bool)>>> = OnceLock::new();
     CUTS.get_or_init(|| Mutex::new(HashMap::new()))
 }
 
@@ -267,10 +274,24 @@ fn fault_port() -> u16 {
                     let line = String::from_utf8_lossy(&head);
                     let id = line.split_whitespace().nth(1).and_then(|p| p.rsplit('/').next().map(|x| x.to_string())).and_then(|x| x.parse::<u64>().ok());
                     let entry = id.and_then(|i| cuts().lock().ok().and_then(|mut m| m.remove(&i)));
-                    if let Some((body, missing)) = entry {
-                        let _ = write!(c, "HTTP/1.1 200 OK\r\nContent-Type: application/xml\r\nContent-Length: {}\r\n\r\n", body.len() + missing);
+                    if let Some((body, missing, stall)) = entry {
+                        let _ = write!(c, "HTTP/1.1 200 OK\r\nContent-Type: application/xml\r\nLast-Modified: Tue, 13 Aug 2024 12:33:30 GMT\r\nContent-Length: {}\r\n\r\n", body.len() + missing);
                         let _ = c.write_all(&body);
                         let _ = c.flush();
+                        if stall {
+                            // hold the connection until the client closes it or three seconds pass
+                            let _ = c.set_read_timeout(Some(std::time::Duration::from_millis(50)));
+                            let t0 = std::time::Instant::now();
+                            let mut sink = [0u8; 64];
+                            while t0.elapsed() < std::time::Duration::from_secs(3) {
+                                match c.read(&mut sink) {
+                                    Ok(0) => break,
+                                    Ok(_) => {}
+                                    Err(e) if matches!(e.kind(), std::io::ErrorKind::WouldBlock | std::io::ErrorKind::TimedOut) => {}
+                                    Err(_) => break,
+                                }
+                            }
+                        }
                     }
                     let _ = c.shutdown(std::net::Shutdown::Both);
                 });
@@ -403,12 +424,216 @@ pub fn rfc3339(epoch_ms: i64, fractional: bool) -> String {
     }
 }
 
+// ---------------------------------------------------------------------------------------------
+// Calls that were given up, and calls in flight at the same time
+// ---------------------------------------------------------------------------------------------
+//
+// Every asynchronous library call of C15 and C17 goes through `block_on(false, ..)`.  Part of the
+// time that call is not alone on its runtime:
+//   * a *prelude*: before the call, another library call (download, listing or discovery against
+//     a site of this thread's own whose replies stall mid-way) is started under a short
+//     `tokio::time::timeout` and dropped when it fires - a caller who gave up on a request.  What
+//     the dropped future leaves behind in the process must not reach the call that follows, which
+//     is judged by its own oracle as always;
+//   * a *companion*: the call is joined (`tokio::join!`) with a download or listing of known
+//     content on the same runtime; the simulator answers the companion after a few milliseconds,
+//     so both requests are in flight together.  The call is judged by its oracle, the companion
+//     against what its site holds; a mismatch there is reported through `SIDE_VIOLATIONS`.
+
+pub static SIDE_VIOLATIONS: Mutex<Vec<(String, String)>> = Mutex::new(Vec::new());
+pub static PRELUDES: AtomicU64 = AtomicU64::new(0);
+pub static PRELUDES_CANCELLED: AtomicU64 = AtomicU64::new(0);
+pub static COMPANIONS: AtomicU64 = AtomicU64::new(0);
+pub static COMPANIONS_EXACT: AtomicU64 = AtomicU64::new(0);
+
+pub fn side_violation(sig: &str, detail: String) {
+    if let Ok(mut v) = SIDE_VIOLATIONS.lock() {
+        if v.len() < 50 {
+            v.push((sig.to_string(), detail));
+        }
+    }
+}
+
+/// This thread's auxiliary site: a few chunks in volume 7 (every listing and object reply is
+/// delayed by a few milliseconds), the same chunks under `stall-` names whose replies stall
+/// mid-body, and a volume directory tree for discoveries whose fifth listing stalls.
+struct Aux {
+    site: String,
+    chunk_names: Vec<String>,
+    chunk_bytes: Vec<Vec<u8>>,
+    stall_everything: bool,
+    lists_seen: u64,
+}
+
+const AUX_LM_S: i64 = 1_723_552_410; // Tue, 13 Aug 2024 12:33:30 GMT
+
+impl Scope for Aux {
+    fn handle(&mut self, req: &Req) -> Resp {
+        if req.is_list() {
+            self.lists_seen += 1;
+            let prefix = req.q("prefix").unwrap_or("").to_string();
+            let max_keys = req.q("max-keys").and_then(|m| m.parse::<usize>().ok());
+            let mut objs: Vec<Obj> = Vec::new();
+            for (i, n) in self.chunk_names.iter().enumerate() {
+                objs.push(Obj { key: format!("{}/7/{}", self.site, n), last_modified: rfc3339(AUX_LM_S * 1000 + i as i64 * 1000, true), size: self.chunk_bytes[i].len().to_string() });
+            }
+            objs.push(Obj { key: format!("{}/8/20240813-124000-001-S", self.site), last_modified: rfc3339(AUX_LM_S * 1000 + 600_000, true), size: "1".into() });
+            objs.sort_by(|a, b| a.key.as_bytes().cmp(b.key.as_bytes()));
+            let (sel, truncated, limit) = select(&objs, &prefix, max_keys);
+            let xml = list_xml(&req.bucket, &prefix, &sel, truncated, limit, false).into_bytes();
+            if self.stall_everything && self.lists_seen % 5 == 0 {
+                let keep = xml.len() / 2;
+                return Resp::stalled(xml[..keep].to_vec(), xml.len() - keep);
+            }
+            std::thread::sleep(std::time::Duration::from_millis(3));
+            return Resp { status: 200, headers: vec![("Content-Type".into(), "application/xml".into())], body: xml };
+        }
+        let key = req.key.clone().unwrap_or_default();
+        let name = key.rsplit('/').next().unwrap_or("");
+        match self.chunk_names.iter().position(|n| n == name) {
+            Some(i) if self.stall_everything => {
+                let b = &self.chunk_bytes[i];
+                let keep = b.len() * 2 / 3;
+                Resp::stalled(b[..keep].to_vec(), b.len() - keep)
+            }
+            Some(i) => {
+                std::thread::sleep(std::time::Duration::from_millis(3));
+                Resp::object(self.chunk_bytes[i].clone(), Some(rfc2822(AUX_LM_S)))
+            }
+            None => Resp::status(404),
+        }
+    }
+}
+
+struct AuxHandle {
+    site: String,
+    scope: Arc<Mutex<Aux>>,
+    names: Vec<String>,
+    bytes: Vec<Vec<u8>>,
+}
+
+fn aux() -> std::rc::Rc<AuxHandle> {
+    thread_local! { static AUX: std::cell::RefCell<Option<std::rc::Rc<AuxHandle>>> = const { std::cell::RefCell::new(None) }; }
+    AUX.with(|a| {
+        if let Some(h) = a.borrow().as_ref() {
+            return h.clone();
+        }
+        let site = fresh_site();
+        let mut rng = crate::rng::Rng::derive(crate::rng::fnv(site.as_bytes()), 99, 1);
+        let mut names = Vec::new();
+        let mut bytes = Vec::new();
+        for seq in 2..=6usize {
+            names.push(format!("20240813-123330-{:03}-I", seq));
+            let payload = rng.bytes(3000 + seq * 7000);
+            bytes.push(crate::enc::ldm_record(&crate::enc::bzip2_compress(&payload, 1), false));
+        }
+        let scope = Arc::new(Mutex::new(Aux { site: site.clone(), chunk_names: names.clone(), chunk_bytes: bytes.clone(), stall_everything: false, lists_seen: 0 }));
+        global().register(&site, scope.clone());
+        let h = std::rc::Rc::new(AuxHandle { site, scope, names, bytes });
+        *a.borrow_mut() = Some(h.clone());
+        h
+    })
+}
+
+async fn prelude(kind: u64) {
+    use nexrad_data::aws::realtime::{self, ChunkIdentifier, VolumeIndex};
+    let h = aux();
+    if let Ok(mut g) = h.scope.lock() {
+        g.stall_everything = true;
+        g.lists_seen = 0;
+    }
+    PRELUDES.fetch_add(1, Ordering::Relaxed);
+    let wait = std::time::Duration::from_millis(25 + (kind % 4) * 15);
+    let cancelled = match kind % 3 {
+        0 => {
+            let id = ChunkIdentifier::new(h.site.clone(), VolumeIndex::new(7), h.names[(kind as usize / 3) % h.names.len()].clone(), None);
+            tokio::time::timeout(wait, realtime::download_chunk(&h.site, &id)).await.is_err()
+        }
+        1 => tokio::time::timeout(wait, async {
+            // the fifth listing stalls; the ones before it are answered
+            for _ in 0..5 {
+                let _ = realtime::list_chunks_in_volume(&h.site, VolumeIndex::new(7), 100).await;
+            }
+        })
+        .await
+        .is_err(),
+        _ => tokio::time::timeout(wait, realtime::get_latest_volume(&h.site)).await.is_err(),
+    };
+    if cancelled {
+        PRELUDES_CANCELLED.fetch_add(1, Ordering::Relaxed);
+    }
+    if let Ok(mut g) = h.scope.lock() {
+        g.stall_everything = false;
+    };
+}
+
+async fn companion(kind: u64) {
+    use nexrad_data::aws::realtime::{self, ChunkIdentifier, VolumeIndex};
+    let h = aux();
+    COMPANIONS.fetch_add(1, Ordering::Relaxed);
+    if kind % 2 == 0 {
+        let i = (kind as usize / 2) % h.names.len();
+        let id = ChunkIdentifier::new(h.site.clone(), VolumeIndex::new(7), h.names[i].clone(), None);
+        match realtime::download_chunk(&h.site, &id).await {
+            Ok((got_id, chunk)) => {
+                if chunk.data() != &h.bytes[i][..] {
+                    side_violation("a download in flight beside another call returns bytes that are not the stored object", format!("companion object {}: {} bytes stored, {} returned", h.names[i], h.bytes[i].len(), chunk.data().len()));
+                } else if got_id.name() != h.names[i] || got_id.date_time().map(|t| t.timestamp()) != Some(AUX_LM_S) {
+                    side_violation("a download in flight beside another call is not labelled / stamped as its own object", format!("asked {}, got {:?}", h.names[i], got_id));
+                } else {
+                    COMPANIONS_EXACT.fetch_add(1, Ordering::Relaxed);
+                }
+            }
+            Err(e) => {
+                let text = format!("{e:?}");
+                if !text.contains("onnect") {
+                    side_violation("a download of a stored object fails when another call is in flight beside it", text);
+                }
+            }
+        }
+    } else {
+        let max_keys = [100usize, 3, 1000][(kind as usize / 2) % 3];
+        match realtime::list_chunks_in_volume(&h.site, VolumeIndex::new(7), max_keys).await {
+            Ok(ids) => {
+                let want: Vec<&String> = h.names.iter().take(max_keys).collect();
+                let got: Vec<String> = ids.iter().map(|i| i.name().to_string()).collect();
+                if got.len() != want.len() || got.iter().zip(want.iter()).any(|(a, b)| a != *b) {
+                    side_violation("a listing in flight beside another call does not return its own directory", format!("max-keys {}: expected {:?}, got {:?}", max_keys, want, got));
+                } else {
+                    COMPANIONS_EXACT.fetch_add(1, Ordering::Relaxed);
+                }
+            }
+            Err(e) => {
+                let text = format!("{e:?}");
+                if !text.contains("onnect") {
+                    side_violation("a listing of a well-formed directory fails when another call is in flight beside it", text);
+                }
+            }
+        }
+    }
+}
+
 /// Current-thread tokio runtime, optionally with the clock paused (virtual time).  Where the
 /// caller stands is part of the workload: without a paused clock, every eighth call on a thread is
-/// driven by a multi-threaded runtime (two workers) instead.
+/// driven by a multi-threaded runtime (two workers) instead; one call in six follows a call that
+/// was given up on the same runtime, one in six has a companion in flight beside it.
 pub fn block_on<F: std::future::Future>(paused: bool, f: F) -> F::Output {
     thread_local! { static CALLS: std::cell::Cell<u64> = const { std::cell::Cell::new(0) }; }
     let k = CALLS.with(|c| { let v = c.get(); c.set(v + 1); v });
+    let plain = paused || std::env::var_os("VERIF_NO_COMPANY").is_some();
+    let with_prelude = !plain && k % 6 == 2;
+    let with_companion = !plain && k % 6 == 4;
+    let f = async move {
+        if with_prelude {
+            prelude(k / 6).await;
+            f.await
+        } else if with_companion {
+            let (out, ()) = tokio::join!(f, companion(k / 6));
+            out
+        } else {
+            f.await
+        }
+    };
     if !paused && k % 8 == 5 {
         if let Ok(rt) = tokio::runtime::Builder::new_multi_thread().worker_threads(2).enable_all().build() {
             MULTI_THREAD_RUNS.fetch_add(1, Ordering::Relaxed);
